@@ -5,6 +5,7 @@ mode over batches.  The detector itself (welch/medfilt/coherence numerics) is ou
 import numpy as np
 import scipy
 import scipy.stats
+import math
 import z3
 
 from symex import arrays, core, stubs
@@ -172,6 +173,32 @@ def case_interpolate_int16(ctx, layout, m, bad_at):
             ctx.oblige("good_and_outside_rows_returned_identical", oi is vals[i] or core.eq(oi, vals[i]) is True, detail={"row": i})
 
 
+def case_interpolate_nan_in_bad_channel(ctx, layout, m, bad_at):
+    """the bad channel's own samples are NaN (left by an upstream division): its repaired row is built from the neighbours only, hence finite"""
+    import ibldsp.voltage as v
+    x, y = _geometry(layout, m, 0)
+    kind = ctx.int("kind", 1, 2)
+    rows = [[float("nan")] if i == bad_at else [ctx.real(f"d{i}", -1000, 1000)] for i in range(m)]
+    data = arrays.mk([e for r in rows for e in r], shape=(m, 1), tag=np.dtype(np.float32))
+    lab = arrays.mk([kind if i == bad_at else 0 for i in range(m)], tag=np.dtype(float))
+    out = ctx.call("interpolate", v.interpolate_bad_channels, data, lab, x, y)
+    if not ctx.oblige("shape_preserved", tuple(out.shape) == (m, 1)):
+        return
+    w = np.exp(-((np.abs(x - x[bad_at] + 1j * (y - y[bad_at])) / 20) ** 1.3))
+    w[bad_at] = 0
+    w[w < 0.005] = 0
+    contrib = [j for j in range(m) if w[j] > 0]
+    o = np.asarray(arrays._plain(out), dtype=object)[bad_at, 0]
+    finite = (not (isinstance(o, float) and (math.isnan(o) or math.isinf(o)))) if not isinstance(o, core.Sym) else not_(o.isnan())
+    if not ctx.oblige("repaired_row_is_finite_when_only_the_bad_channel_held_nan", finite, detail={"out": o}):
+        return
+    lo, hi = rows[contrib[0]][0], rows[contrib[0]][0]
+    for j in contrib[1:]:
+        lo = ite(rows[j][0] < lo, rows[j][0], lo)
+        hi = ite(rows[j][0] > hi, rows[j][0], hi)
+    ctx.oblige("repaired_row_within_neighbour_range", and_(o >= lo - 1e-6, o <= hi + 1e-6), detail={"out": o, "contributors": contrib})
+
+
 def _coefficients(o, var_rows):
     """o = sum c[j][t] * var_rows[j][t]; returns c as Fractions (None if o is not such a linear term)"""
     from fractions import Fraction
@@ -284,6 +311,8 @@ def cases(tier):
         cs.append(Case(f"interp_{lay}_run_of_bad_m{mm}", "case_interpolate", {"layout": lay, "m": mm, "off": 0, "free": 0, "run": True, "ns": 1}, timeout_s=3000, max_paths=300000))
     for lay, bad_at in (("np1", 3),) if tier == "quick" else (("np1", 3), ("np1", 0), ("np2", 4), ("np24", 7)):
         cs.append(Case(f"interp_{lay}_int16_bad{bad_at}", "case_interpolate_int16", {"layout": lay, "m": 8, "bad_at": bad_at}, timeout_s=1500))
+    for lay, bad_at in (("np1", 3),) if tier == "quick" else (("np1", 3), ("np2", 4)):
+        cs.append(Case(f"interp_{lay}_nanbad_bad{bad_at}", "case_interpolate_nan_in_bad_channel", {"layout": lay, "m": 8, "bad_at": bad_at}, timeout_s=1500))
     cs.append(Case("mode_1ch_2batches", "case_mode", {"nch": 1, "n_batches": 2}))      # even counts: ties between batches
     cs.append(Case("mode_1ch_4batches", "case_mode", {"nch": 1, "n_batches": 4}))
     cs.append(Case("mode_2ch_3batches", "case_mode", {"nch": 2, "n_batches": 3}))
@@ -314,6 +343,22 @@ def twins(tier):
 
 def replay(case, params, cex):
     m = cex["model"]
+    if "_nanbad_" in case:
+        from fractions import Fraction
+        mm, bad_at = params["m"], params["bad_at"]
+        vals = [float(Fraction(str(m.get(f"d{i}", 0)))) if i != bad_at else float("nan") for i in range(mm)]
+        return f"""
+import ibldsp.voltage as v, neuropixel
+layout, m, bad_at = {params['layout']!r}, {mm}, {bad_at}
+h = neuropixel.trace_header(version=1) if layout == 'np1' else neuropixel.trace_header(version=2, nshank=1 if layout == 'np2' else 4)
+x, y = h['x'][:m].astype(float), h['y'][:m].astype(float)
+d = np.array({[None if v != v else v for v in vals]!r}, dtype=float)[:, None] * np.ones((1, 3))      # None -> NaN
+labels = np.zeros(m); labels[bad_at] = {m.get('kind', 1)}
+out = v.interpolate_bad_channels(d.copy(), labels, x, y)
+print(d[:, 0], out[:, 0])
+if not np.all(np.isfinite(out[bad_at])): reproduced(f'the bad channel {{bad_at}} held NaN; after the repair it still holds {{out[bad_at].tolist()}} although all its neighbours are finite')
+not_reproduced()
+"""
     if "_int16_" in case:
         mm, bad_at = params["m"], params["bad_at"]
         vals = [int(str(m[f"d{i}"])) for i in range(mm)]
